@@ -1,6 +1,7 @@
 package interp
 
 import (
+	"gosym/sym"
 	"regexp"
 	"strconv"
 	"strings"
@@ -148,5 +149,78 @@ func init() {
 			Unsupported("message.Printer.Sprintf of symbolic number")
 		}
 		return groupThousands(strconv.FormatInt(asInt64(arg.v), 10))
+	})
+}
+
+// strings.Replacer: modelled for the common case used with text taken from files.
+type replacerObj struct {
+	olds, news []string
+}
+
+func init() {
+	reg("strings.NewReplacer", func(fr *frame, a []value) value {
+		args := a[0].([]value)
+		if len(args)%2 == 1 {
+			panic(targetPanic{v: mkError("strings.NewReplacer: odd argument count")})
+		}
+		r := &replacerObj{}
+		for i := 0; i < len(args); i += 2 {
+			o, ok1 := args[i].(string)
+			n, ok2 := args[i+1].(string)
+			if !ok1 || !ok2 {
+				Unsupported("strings.NewReplacer with symbolic arguments")
+			}
+			r.olds = append(r.olds, o)
+			r.news = append(r.news, n)
+		}
+		var v value = r
+		return &v
+	})
+	reg("(*strings.Replacer).Replace", func(fr *frame, a []value) value {
+		r := (*a[0].(*value)).(*replacerObj)
+		if cs, ok := a[1].(string); ok {
+			var on []string
+			for i := range r.olds {
+				on = append(on, r.olds[i], r.news[i])
+			}
+			return strings.NewReplacer(on...).Replace(cs)
+		}
+		for _, o := range r.olds {
+			if len(o) != 1 {
+				Unsupported("strings.Replacer with multi-byte patterns on symbolic input")
+			}
+		}
+		var out []value
+		for _, b := range strBytes(a[1]) {
+			if c, ok := b.(uint8); ok {
+				rep := false
+				for i, o := range r.olds {
+					if o[0] == c {
+						out = append(out, strBytes(r.news[i])...)
+						rep = true
+						break
+					}
+				}
+				if !rep {
+					out = append(out, b)
+				}
+				continue
+			}
+			t := b.(*Sym).T
+			conds := make([]*sym.Term, len(r.olds)+1)
+			var none []*sym.Term
+			for i, o := range r.olds {
+				conds[i] = sym.And(append(append([]*sym.Term{}, none...), sym.Eq(t, sym.Int(int64(o[0]))))...)
+				none = append(none, sym.Not(sym.Eq(t, sym.Int(int64(o[0])))))
+			}
+			conds[len(r.olds)] = sym.And(none...)
+			k := cx.Choose(len(conds), conds)
+			if k < len(r.olds) {
+				out = append(out, strBytes(r.news[k])...)
+			} else {
+				out = append(out, b)
+			}
+		}
+		return mkStr(out)
 	})
 }
